@@ -1,7 +1,8 @@
 SPEC = {
     "claimed": True,
     "gen": ["storage"],
-    "theorems": ["C13_agree", "C13_stored_agree", "C13_ghosts", "C13_error_no_advance", "C13_genuine_refusals",
+    "theorems": ["C13_agree", "C13_stored_agree", "C13_ghosts", "C13_error_no_advance", "C13_ok_answers", "C13_genuine_refusals",
+                 "C13_full_snapshot_accepted",
                  "C13_error_never_own_tick_refuted", "C13_manager_total", "C13_no_panic", "C13_K09_panics", "C13_nonvacuous"],
     "allowed_axioms": [],
     "extract": {
@@ -42,7 +43,10 @@ SPEC = {
         "the snapshot channel only loses, duplicates and reorders messages the sender made (no forgery: the checksum "
         "is a plain sum); the acknowledgement channel is arbitrary (forged values included)",
         "both sides use the same table of pre-agreed object sizes; the theorems hold for every table",
-        "C13_error_no_advance needs no assumption: every Manager state, every message"],
+        "C13_error_no_advance and C13_ok_answers need no assumption: every Manager state, every message; "
+        "C13_manager_total: any messages whose data are at most 64 KiB of bytes, from Manager::new()",
+        "C13_full_snapshot_accepted (progress, beyond the property): the delta is against the empty snapshot and fits "
+        "one message (<= 900 bytes)"],
     "explanation": "C13_agree / C13_no_panic are proved by induction over the label list with an invariant of the "
                    "link: every snapshot the Manager stores or has handed out for tick t is a copy (same items, same "
                    "registry, same checksum) of the snapshot the sender built for t; every message in flight belongs "
